@@ -30,27 +30,27 @@ func init() {
 	register(&Engine{
 		Name: "key",
 		Rule: "rt: RSA keys (512/1017/1024[/2048] bits built from seeded primes: modulus top byte 0x80/0xFF/0x01, small and large E, D with top bit on a byte boundary, missing precomputation, 3 primes) and ECDSA keys on P-224/256/384/521 (d=1, d=n-1, leading zero bytes, top bit set, X or Y with a leading zero byte) and byte strings × every builder of kmipclient/register.go × format masks × versions 1.0..1.4 × {ttlv,xml,json} codec path + ttlv wire path; access: formats 0..22,99 × KeyValue shapes × material slot subsets (quick: none/all/single/all-but-one; thorough: all 256) × contents (every standard library blob kind, garbage, all 128 subsets of the optional RSA integers, curve/scalar/point/compression codes), hand-built and after transport in each encoding; lexical: boundary and random big integers and mutated texts; distinct = distinct line",
-		Run:  runKey,
+		Run:  keyRun,
 	})
 }
 
-var xmlValueRe = regexp.MustCompile(`value="([^"]*)"`)
+var keyXMLValueRe = regexp.MustCompile(`value="([^"]*)"`)
 
 const keyLexTag = 0x420001
 
-func xmlBigText(v *big.Int) (string, string) {
+func keyXMLBigText(v *big.Int) (string, string) {
 	doc, p := guard("MarshalXML", func() []byte { return ttlv.MarshalXML(ttlv.Value{Tag: keyLexTag, Value: new(big.Int).Set(v)}) })
 	if p != "" {
 		return "", p
 	}
-	m := xmlValueRe.FindSubmatch(doc)
+	m := keyXMLValueRe.FindSubmatch(doc)
 	if m == nil {
 		return "", "no value attribute in " + string(doc)
 	}
 	return string(m[1]), ""
 }
 
-func jsonBigText(v *big.Int) (string, string) {
+func keyJSONBigText(v *big.Int) (string, string) {
 	doc, p := guard("MarshalJSON", func() []byte { return ttlv.MarshalJSON(ttlv.Value{Tag: keyLexTag, Value: new(big.Int).Set(v)}) })
 	if p != "" {
 		return "", p
@@ -64,7 +64,7 @@ func jsonBigText(v *big.Int) (string, string) {
 	return strings.TrimSpace(s[i+len(`"value":`) : j]), ""
 }
 
-func bigOf(v any) *big.Int {
+func keyBigOf(v any) *big.Int {
 	switch b := v.(type) {
 	case *big.Int:
 		return b
@@ -74,7 +74,7 @@ func bigOf(v any) *big.Int {
 	return nil
 }
 
-func readBigDoc(enc string, doc []byte) string {
+func keyReadBigDoc(enc string, doc []byte) string {
 	var val ttlv.Value
 	err, p := guard("Unmarshal", func() error {
 		if enc == "xml" {
@@ -88,22 +88,22 @@ func readBigDoc(enc string, doc []byte) string {
 	if err != nil {
 		return "err"
 	}
-	b := bigOf(val.Value)
+	b := keyBigOf(val.Value)
 	if b == nil {
 		return "err"
 	}
 	return "ok " + b.String()
 }
 
-func xmlBigDoc(text string) []byte {
+func keyXMLBigDoc(text string) []byte {
 	return []byte(fmt.Sprintf(`<TTLV tag="0x%06X" type="BigInteger" value="%s"/>`, keyLexTag, text))
 }
 
-func jsonBigDoc(tok string) []byte {
+func keyJSONBigDoc(tok string) []byte {
 	return []byte(fmt.Sprintf(`{"tag":"0x%06X","type":"BigInteger","value":%s}`, keyLexTag, tok))
 }
 
-func asciiHexTok(s string) string { return hexUp([]byte(s)) }
+func keyASCIIHexTok(s string) string { return hexUp([]byte(s)) }
 
 // keyBigCase: the written form in the three encodings, and the read-back oracle.
 func keyBigCase(env *keyEnv, v *big.Int) {
@@ -118,14 +118,14 @@ func keyBigCase(env *keyEnv, v *big.Int) {
 		var text, p, back string
 		switch enc {
 		case "xml":
-			text, p = xmlBigText(v)
+			text, p = keyXMLBigText(v)
 			if p == "" {
-				back = readBigDoc("xml", xmlBigDoc(text))
+				back = keyReadBigDoc("xml", keyXMLBigDoc(text))
 			}
 		case "json":
-			text, p = jsonBigText(v)
+			text, p = keyJSONBigText(v)
 			if p == "" {
-				back = readBigDoc("json", jsonBigDoc(text))
+				back = keyReadBigDoc("json", keyJSONBigDoc(text))
 			}
 		case "ttlv":
 			var b []byte
@@ -136,10 +136,10 @@ func keyBigCase(env *keyEnv, v *big.Int) {
 				switch {
 				case p2 != "":
 					back = "panic " + p2
-				case err != nil || bigOf(val.Value) == nil:
+				case err != nil || keyBigOf(val.Value) == nil:
 					back = "err"
 				default:
-					back = "ok " + bigOf(val.Value).String()
+					back = "ok " + keyBigOf(val.Value).String()
 				}
 				if len(b) >= 8 {
 					text = string(b[8:])
@@ -154,13 +154,13 @@ func keyBigCase(env *keyEnv, v *big.Int) {
 		if back != "ok "+v.String() {
 			keyViolate(ctx, "big-transport", "key:"+enc+":big-roundtrip", fmt.Sprintf("big integer %s written as %q is read back as %s", v, text, back), line)
 		}
-		ctx.Add(line, "ok "+asciiHexTok(text), v.Sign() != 0, "C14,C04")
+		ctx.Add(line, "ok "+keyASCIIHexTok(text), v.Sign() != 0, "C14,C04")
 		ctx.Res.Count("big." + enc)
 	}
 }
 
 func keyBigReadCase(env *keyEnv, enc, text string) {
-	line := fmt.Sprintf("key.bigread %s %s", enc, asciiHexTok(text))
+	line := fmt.Sprintf("key.bigread %s %s", enc, keyASCIIHexTok(text))
 	if env.seen[line] {
 		return
 	}
@@ -168,9 +168,9 @@ func keyBigReadCase(env *keyEnv, enc, text string) {
 	env.ctx.current = line
 	var out string
 	if enc == "xml" {
-		out = readBigDoc("xml", xmlBigDoc(text))
+		out = keyReadBigDoc("xml", keyXMLBigDoc(text))
 	} else {
-		out = readBigDoc("json", jsonBigDoc(text))
+		out = keyReadBigDoc("json", keyJSONBigDoc(text))
 	}
 	if strings.HasPrefix(out, "panic") {
 		keyViolate(env.ctx, "big-transport", "key:"+enc+":big-read-panic", "reading the big integer text "+strconv.Quote(text)+" panicked", line)
@@ -191,7 +191,7 @@ func keyHexCase(env *keyEnv, b []byte) {
 		keyViolate(ctx, "bytes-transport", "key:xml:bytes-write-panic", "writing a byte string panicked: "+p, line)
 		return
 	}
-	m := xmlValueRe.FindSubmatch(doc)
+	m := keyXMLValueRe.FindSubmatch(doc)
 	if m == nil {
 		ctx.Res.Fail("key: no value attribute in " + string(doc))
 		return
@@ -213,12 +213,12 @@ func keyHexCase(env *keyEnv, b []byte) {
 			keyViolate(ctx, "bytes-transport", "key:"+c.name+":bytes-roundtrip", fmt.Sprintf("byte string %s is read back as %s (%v %s)", hexUp(b), hexUp(got), err, p), line)
 		}
 	}
-	ctx.Add(line, "ok "+asciiHexTok(text), len(b) > 0, "C14,C04")
+	ctx.Add(line, "ok "+keyASCIIHexTok(text), len(b) > 0, "C14,C04")
 	ctx.Res.Count("hex")
 }
 
 func keyUnhexCase(env *keyEnv, text string) {
-	line := "key.unhex " + asciiHexTok(text)
+	line := "key.unhex " + keyASCIIHexTok(text)
 	if env.seen[line] {
 		return
 	}
@@ -238,16 +238,16 @@ func keyUnhexCase(env *keyEnv, text string) {
 	env.ctx.Res.Count("unhex." + strings.SplitN(out, " ", 2)[0])
 }
 
-func pow2(e int) *big.Int { return new(big.Int).Lsh(big.NewInt(1), uint(e)) }
+func keyPow2(e int) *big.Int { return new(big.Int).Lsh(big.NewInt(1), uint(e)) }
 
-func runLexPart(env *keyEnv) {
+func keyRunLexPart(env *keyEnv) {
 	ctx := env.ctx
 	r := ctx.R.Fork()
 	var ints []*big.Int
 	addBoth := func(v *big.Int) { ints = append(ints, v, new(big.Int).Neg(v)) }
 	for _, e := range []int{0, 1, 7, 8, 15, 16, 31, 32, 51, 52, 53, 55, 56, 63, 64, 71, 72, 127, 128, 255, 256, 511, 512, 520, 521, 1023, 1024} {
 		for d := int64(-2); d <= 2; d++ {
-			addBoth(new(big.Int).Add(pow2(e), big.NewInt(d)))
+			addBoth(new(big.Int).Add(keyPow2(e), big.NewInt(d)))
 		}
 	}
 	ints = append(ints, big.NewInt(0))
@@ -283,13 +283,13 @@ func runLexPart(env *keyEnv) {
 		if i%3 != 0 && v.BitLen() > 80 {
 			continue
 		}
-		if t, p := xmlBigText(v); p == "" {
+		if t, p := keyXMLBigText(v); p == "" {
 			xmlTexts = append(xmlTexts, t, strings.ToLower(t), "00"+t, "FF"+t, "0000000000000000"+t, t+"0", "0x"+t, " "+t, t[:len(t)/2])
 			if len(t) > 2 {
 				xmlTexts = append(xmlTexts, t[1:], t[:len(t)-1]+"G")
 			}
 		}
-		if t, p := jsonBigText(v); p == "" {
+		if t, p := keyJSONBigText(v); p == "" {
 			jsonToks = append(jsonToks, t)
 			if strings.HasPrefix(t, `"0x`) {
 				h := t[3 : len(t)-1]
@@ -344,7 +344,7 @@ func runLexPart(env *keyEnv) {
 	}
 }
 
-func runRtPart(env *keyEnv) {
+func keyRunRtPart(env *keyEnv) {
 	ctx := env.ctx
 	masksFor := func(kind string) []uint8 {
 		switch kind {
@@ -361,7 +361,7 @@ func runRtPart(env *keyEnv) {
 		}
 		return []uint8{0, 1}
 	}
-	run := func(builders []keyBuilder, orig *rtOrig, full bool) {
+	run := func(builders []keyBuilder, orig *keyRtOrig, full bool) {
 		heavy := orig.rsa != nil && orig.rsa.N.BitLen() > 600
 		for bi, b := range builders {
 			typed := bi == 0 || b.name == "RsaPublicKey" || b.name == "EcdsaPublicKey" || b.kind == "sym" || b.kind == "secret" || b.kind == "cert"
@@ -379,26 +379,26 @@ func runRtPart(env *keyEnv) {
 						continue
 					}
 					for _, enc := range keyEncs {
-						rtCase(env, "codec", enc, ver, b, kf, orig)
+						keyRtCase(env, "codec", enc, ver, b, kf, orig)
 					}
 					if typed || transparent || ctx.Thor {
-						rtCase(env, "wire", keyEncs[0], ver, b, kf, orig)
+						keyRtCase(env, "wire", keyEncs[0], ver, b, kf, orig)
 					}
 				}
 			}
 		}
 	}
 	for _, s := range env.rsas {
-		run(rsaBuilders(s.key), &rtOrig{label: s.label, rsa: s.key, multi: s.multi}, s.label == "r512" || s.label == "r1024-n80" || s.label == "r3primes")
+		run(keyRSABuilders(s.key), &keyRtOrig{label: s.label, rsa: s.key, multi: s.multi}, s.label == "r512" || s.label == "r1024-n80" || s.label == "r3primes")
 	}
 	for _, s := range env.ecs {
-		run(ecBuilders(s.key), &rtOrig{label: s.label, ec: s.key, ecCode: s.code}, strings.HasSuffix(s.label, "-dlead00") || strings.HasSuffix(s.label, "-d80"))
+		run(keyECBuilders(s.key), &keyRtOrig{label: s.label, ec: s.key, ecCode: s.code}, strings.HasSuffix(s.label, "-dlead00") || strings.HasSuffix(s.label, "-d80"))
 	}
 	for _, s := range env.byteS {
-		run(bytesBuilders(s.b), &rtOrig{label: "b-" + s.label, bytes: s.b}, true)
+		run(keyBytesBuilders(s.b), &keyRtOrig{label: "b-" + s.label, bytes: s.b}, true)
 	}
 	if env.blobs.cert != nil {
-		run(certBuilders(env.blobs.cert), &rtOrig{label: "cert", cert: env.blobs.cert}, true)
+		run(keyCertBuilders(env.blobs.cert), &keyRtOrig{label: "cert", cert: env.blobs.cert}, true)
 	}
 }
 
@@ -446,16 +446,16 @@ func keyReplay(env *keyEnv, l string) {
 		if err != nil {
 			return
 		}
-		o, err := parseShObj(env.blobs, f[2:])
+		o, err := keyParseShObj(env.blobs, f[2:])
 		if err != nil {
 			ctx.Res.Fail("key replay: " + err.Error())
 			return
 		}
 		pl := &payloads.GetResponsePayload{ObjectType: kmip.ObjectType(ot), UniqueIdentifier: "id", Object: o.toGo()}
-		accessCase(env, pl, !strings.HasPrefix(l, "#"), "raw", f[0])
+		keyAccessCase(env, pl, !strings.HasPrefix(l, "#"), "raw", f[0])
 		for _, enc := range keyEncs {
-			if back, ok := transportPayload(enc, kmip.V1_4, &payloads.GetResponsePayload{ObjectType: kmip.ObjectType(ot), UniqueIdentifier: "id", Object: o.toGo()}); ok {
-				accessCase(env, back, !strings.HasPrefix(l, "#"), enc.name, f[0])
+			if back, ok := keyTransportPayload(enc, kmip.V1_4, &payloads.GetResponsePayload{ObjectType: kmip.ObjectType(ot), UniqueIdentifier: "id", Object: o.toGo()}); ok {
+				keyAccessCase(env, back, !strings.HasPrefix(l, "#"), enc.name, f[0])
 			}
 		}
 	case "key.rt":
@@ -480,33 +480,33 @@ func keyReplay(env *keyEnv, l string) {
 		if enc.name == "" {
 			return
 		}
-		try := func(builders []keyBuilder, orig *rtOrig) {
+		try := func(builders []keyBuilder, orig *keyRtOrig) {
 			if orig.label != f[5] {
 				return
 			}
 			for _, b := range builders {
 				if b.name == f[3] {
-					rtCase(env, f[0], enc, ver, b, uint8(kf), orig)
+					keyRtCase(env, f[0], enc, ver, b, uint8(kf), orig)
 				}
 			}
 		}
 		for _, s := range env.rsas {
-			try(rsaBuilders(s.key), &rtOrig{label: s.label, rsa: s.key, multi: s.multi})
+			try(keyRSABuilders(s.key), &keyRtOrig{label: s.label, rsa: s.key, multi: s.multi})
 		}
 		for _, s := range env.ecs {
-			try(ecBuilders(s.key), &rtOrig{label: s.label, ec: s.key, ecCode: s.code})
+			try(keyECBuilders(s.key), &keyRtOrig{label: s.label, ec: s.key, ecCode: s.code})
 		}
 		for _, s := range env.byteS {
-			try(bytesBuilders(s.b), &rtOrig{label: "b-" + s.label, bytes: s.b})
+			try(keyBytesBuilders(s.b), &keyRtOrig{label: "b-" + s.label, bytes: s.b})
 		}
 		if env.blobs.cert != nil {
-			try(certBuilders(env.blobs.cert), &rtOrig{label: "cert", cert: env.blobs.cert})
+			try(keyCertBuilders(env.blobs.cert), &keyRtOrig{label: "cert", cert: env.blobs.cert})
 		}
 	}
 }
 
-func runKey(ctx *Ctx) {
-	env := newKeyEnv(ctx)
+func keyRun(ctx *Ctx) {
+	env := keyNewEnv(ctx)
 	if env == nil {
 		return
 	}
@@ -522,11 +522,11 @@ func runKey(ctx *Ctx) {
 	}
 	ctx.Res.Count(fmt.Sprintf("sample.ec.count=%d", len(env.ecs)))
 	t0 := time.Now()
-	runLexPart(env)
+	keyRunLexPart(env)
 	t1 := time.Now()
-	runAccessPart(env)
+	keyRunAccessPart(env)
 	t2 := time.Now()
-	runRtPart(env)
+	keyRunRtPart(env)
 	fmt.Fprintf(os.Stderr, "key: lex %.1fs access %.1fs rt %.1fs\n", t1.Sub(t0).Seconds(), t2.Sub(t1).Seconds(), time.Since(t2).Seconds())
 }
 
